@@ -332,7 +332,8 @@ def batch_api_table(ctx):
                 ctx.violation(f"pytarget:api-table:runtime:{fn}:{type(e).__name__}",
                               f"{c['label']}: generated code fails: {e}", {"call": c["label"], "source": bp.program})
                 continue
-            if not _num_close(got, ref, c.get("exact", False)):
+            sp = any(np.asarray(v).dtype in (np.dtype("float32"), np.dtype("complex64")) for v in inp.values())
+            if not _num_close(got, ref, c.get("exact", False), single=sp):
                 dis += 1
                 ctx.violation(f"pytarget:api-table:value:{fn}",
                               f"{c['label']}: generated Python gives {got.reshape(-1)[:6].tolist()}…, NumPy's {fn} "
